@@ -116,22 +116,37 @@ CHECKS = {
             "suspension semantics are modelled (an abandoned generator = the effects up to its n-th item), not verified. "
             "cached_method raises RuntimeError when called on a temporary object (third-party behaviour, outside the property).",
             "7/C20"),
-    "C05": ("Coq theorems about a specification model of DFA.minify / DFA.to_partial(minify=True) (state selection, implicit trap, "
-            "Moore signature refinement to the coarsest finality-respecting congruence, quotient) + differential correspondence "
-            "against /repo via the extracted model and the verified language comparator",
-            "Proved for all valid DFAs (unbounded states/alphabet/word length), all 16 theorems closed under the global context: the model "
+    "C05": ("Coq theorems about two models of DFA.minify / DFA.to_partial(minify=True): a specification model (state selection, "
+            "implicit trap, Moore signature refinement to the coarsest finality-respecting congruence, quotient) and a mirror model of "
+            "DFA._minify as coded (back map with the implicit trap, PartitionRefinement.refine, Hopcroft's `processing` worklist with its "
+            "update rule under an arbitrary pop schedule and symbol order, back_map / enumerate names / any representative), proved to "
+            "agree + differential correspondence against /repo via both extracted models and the verified language comparator",
+            "Proved for all valid DFAs (unbounded states/alphabet/word length), all 21 theorems closed under the global context: the model "
             "always returns a DFA (the refinement fuel |Q|+1 is proved sufficient); the result is valid, over the same alphabet, accepts "
             "exactly the source language; the Myhill-Nerode lower bound for the DFA record (complete competitors; arbitrary competitors when "
             "no state is dead); the result is minimal among complete DFAs when complete and among all DFAs when partial (Spec/Minimal.v), "
             "its partial flag is exact, a partial result has no dead state, minimising twice keeps the size, and the retained-name blocks are "
             "exactly the Nerode classes of the kept states; same guarantees for to_partial(minify=True); to_partial(minify=False) is valid, "
             "partial, language-preserving and keeps exactly the initial + reachable-and-co-accessible states. Refinement lemmas cls_k_spec / "
-            "stable_is_nerode / refine_fuel hold for any deterministic system. Model tied to the code by: result passes validation, "
+            "stable_is_nerode / refine_fuel hold for any deterministic system. Mirror of the code's refinement (C05_hopcroft_all_schedules, "
+            "C05_hopcroft_faithful, C05_hopcroft_partition): for EVERY order in which processing.pop() may return the pending ids and every "
+            "iteration order of the symbols the worklist loop ends within |Q|+1 pops, never separates Nerode-equivalent items, ends stable, "
+            "hence ends in the Nerode partition of kept states + trap = the specification model's partition (Hopcroft's invariant on pairs: "
+            "if a symbol leads two items of one set into two sets, one of these is pending); _minify with that refinement returns literally "
+            "the specification model's result. C05_coded_minify / C05_coded_to_partial_min: the result construction as coded (back_map, "
+            "names = positions in get_sets(), representative = any member, rows filtered through back_map, empty_language, allow_partial "
+            "from row lengths) never raises (no KeyError, no fuel) and gives a valid DFA isomorphic to the specification model's: same "
+            "language, same size, minimal of its kind. Model tied to the code by: result passes validation, "
             "language equal to the source and to the model's result (verified dfa_diff), same state count, equal partition with "
             "retain_names=True, for minify(), minify(retain_names=True), to_partial(minify=True, retain_names=both), to_partial(minify=False) "
-            "(language, size, trimness) and minify().minify(); thorough tier exhaustive over all partial DFAs with <= 3 states over 2 symbols.",
-            "Hopcroft's splitter schedule and PartitionRefinement's bookkeeping are not modelled (the partition they must reach is unique and "
-            "is what is compared).",
+            "(language, size, trimness) and minify().minify(); per case the mirror model is run under four pop schedules (oldest first, "
+            "random, newest-first / smallest-id / largest-id) with shuffled symbol orders: its partition must equal the specification "
+            "model's and the implementation's retained names, and the implementation's result is compared (language, size, partial flag) "
+            "with the coded mirror's result; thorough tier exhaustive over all partial DFAs with <= 3 states over 2 symbols.",
+            "In the mirror model set ids are consecutive numbers instead of id(set) addresses and new sets are numbered in _sets order "
+            "instead of first-hit order (ids are only compared for equality; covered by the quantification over schedules); the "
+            "implementation's own pop order and intermediate partitions are not observed (only the final partition and result are "
+            "compared); retain_names=True naming by frozensets is represented by the list of classes, not by a DFA over set-valued names.",
             "7/C05"),
     "C03": ("Coq theorems about executable models of TMTape and the DTM/NTM/MNTM simulators against textbook step relations on a "
             "bi-infinite tape + differential correspondence against /repo via the extracted model",
